@@ -299,6 +299,13 @@ package tars
 //@   site dynamic#2 assert [C09] $0.hasdl && (!s.ghad ==> $0.dl == s.gto)
 //@   site dynamic#3 assert [C09] $0.hasdl && (!s.ghad ==> $0.dl == s.gto)
 //@   site dynamic#4 assert [C09] $0.hasdl && (!s.ghad ==> $0.dl == s.gto)
+//@   site GetClientHash#0 ghostafter s.ghok = $ret0
+//@   site GetClientHash#0 ghostafter s.ghty = $ret1
+//@   site GetClientHash#0 ghostafter s.ghcode = $ret2
+//@   site GetClientHash#0 ghostafter s.ghish = $ret3
+//@   site GetClientTimeout#0 assert [C14] s.ghok ==> (msg.isHash == s.ghish && msg.hashType == s.ghty && msg.hashCode == s.ghcode)
+//@   site GetClientTimeout#0 assert [C14] !s.ghok ==> !msg.isHash
+//@   sites GetClientHash = 1
 //@   ensures [C09] s.ginv == old(s.ginv)
 //@   loop 0 invariant s != nil && s.manager != nil && msg != nil && msg.Ser == s && ctx.hasdl && s.ginv == old(s.ginv) + 1
 //@   loop 0 invariant [C09] !s.ghad ==> ctx.dl == s.gto
@@ -336,9 +343,11 @@ package tars
 //@   site Map).Delete#0 assert [C15] $0 == e.checkAdapterList && $1 == ifaceof(e.gkey, "string")
 //@   site Map).Delete#0 ghost e.gunlisted = true
 //@   ensures [C15] result1 ==> e.gunlisted
+//@   site Intn#0 assert [C15] $0 == e.rand && $1 == len(e.activeEpf) && $1 > 0
+//@   sites Intn = 1
 //
 // ------------------------------------------------------------------ taking endpoints out of rotation (property C15)
-// checkStatus removes an endpoint from the rotation (the three selectors and the active list) only when
+// checkStatus removes an endpoint from the rotation (each of the three selectors exactly once, and the active list) only when
 // checkActive has just blocked it, and checkActive blocks only with at least overN (2) failures recorded; an
 // adapter is queued for probing only when checkActive asks for a probe. Sequential reading of the sync.Maps.
 // A probe candidate handed out by SelectAdapterProxy (second result true) has been taken off the pending list
@@ -358,9 +367,12 @@ package tars
 //@   requires e.activeEpRoundRobin != nil && e.activeEpConHash != nil && e.activeEpModHash != nil
 //@   noframe
 //@   allocates
-//@   site Remove#0 assert [C15] firstTime && !adp.status && adp.failCount >= overN
-//@   site Remove#1 assert [C15] firstTime && !adp.status && adp.failCount >= overN
-//@   site Remove#2 assert [C15] firstTime && !adp.status && adp.failCount >= overN
+//@   site RoundRobin).Remove#0 assert [C15] firstTime && !adp.status && adp.failCount >= overN && $0 == e.activeEpRoundRobin
+//@   site ConsistentHash).Remove#0 assert [C15] firstTime && !adp.status && adp.failCount >= overN && $0 == e.activeEpConHash
+//@   site ModHash).Remove#0 assert [C15] firstTime && !adp.status && adp.failCount >= overN && $0 == e.activeEpModHash
+//@   sites RoundRobin).Remove = 1
+//@   sites ConsistentHash).Remove = 1
+//@   sites ModHash).Remove = 1
 //@   site Store#0 assert [C15] needCheck && !adp.status
 //@   loop 0 invariant e != nil && e.comm != nil && e.comm.Client != nil && epListHealthy(e) && e.activeEpRoundRobin != nil && e.activeEpConHash != nil && e.activeEpModHash != nil
 //@   loop 1 invariant e != nil && e.comm != nil && e.comm.Client != nil && epListHealthy(e) && e.activeEpRoundRobin != nil && e.activeEpConHash != nil && e.activeEpModHash != nil && adp != nil && firstTime && !adp.status && adp.failCount >= overN
